@@ -10,6 +10,8 @@ from .. import audiocommon as AC
 from .. import pipeline as P
 from ..ctx import stable_hash
 
+from ..ctx import scratch_dir  # noqa: E402
+
 ID = "C13"
 LEVEL = "exploration"
 TIERS = {"quick": {"shards": 16, "budget_s": 120, "runs": 100, "line_runs": 16, "systematic_pipelines": 2, "systematic_deviations": 1, "stress_runs": 8},
@@ -620,7 +622,7 @@ def two_pipelines_at_once(ctx, tmpdir):
 
 def run_shard(ctx):
     conf = TIERS[ctx.tier]
-    tmpdir = tempfile.mkdtemp(prefix="vf-c13-")
+    tmpdir = scratch_dir(ctx, "vf-c13-")
     try:
         rng = ctx.rng("runs")
         for i in range(conf["runs"]):
